@@ -132,7 +132,7 @@ def check(ctx):
         ctx.ob("recv", "delivered only for a first-seen id", bool(ins_true) and h.must_pass_edges(s.bb, ins_true), s.loc(), "Event::Message dominated by duplicate_cache.insert(id) == true")
         ctx.ob("recv", "delivered only for a valid message", bool(val_true) and h.must_pass_edges(s.bb, val_true), s.loc(), "Event::Message dominated by message_is_valid == true")
         e = h.site_expr(s)
-        topic_guard = h.guard_edges(lambda c, r, l: l == "true" and c[0] == "call" and re.search(r"HashMap::contains_key$", strip_generics(c[1])) is not None
+        topic_guard = gs.guard(h, lambda c, r, l: l == "true" and c[0] == "call" and re.search(r"HashMap::contains_key$", strip_generics(c[1])) is not None
                                     and render(c[2][0]) == "self.mesh" and render(c[2][1]).endswith("@Ok.0.topic"))
         ctx.ob("recv", "delivered only when subscribed to the topic", bool(topic_guard) and h.must_pass_edges(s.bb, topic_guard), s.loc(), "Event::Message dominated by mesh.contains_key(message.topic) == true")
     # id consistency
@@ -275,11 +275,11 @@ def check(ctx):
                 a, b = c[2][0], c[2][1]
                 return (some_of_peer(a) and other(b)) or (some_of_peer(b) and other(a))
             return p
-        g1 = f.guard_edges(ne_edge(lambda x: x[0] == "arg" and x[1] == ps_arg))
-        g2 = f.guard_edges(lambda c, r, l: l == "false" and c[0] == "call" and re.search(r"HashSet::contains$", strip_generics(c[1])) is not None and c[2][0][0] == "arg" and c[2][0][1] == orig_arg
-                           and render(c[2][1]) == pr and gs.next_call_bb(c[2][1]) == head)
-        g3 = f.guard_edges(ne_edge(lambda x: x[0] == "call" and re.search(r"Option::as_ref$", strip_generics(x[1])) is not None and x[2][0][0] == "field" and x[2][0][2] == "source"
-                                   and x[2][0][1][0] == "arg" and x[2][0][1][1] == msg_arg))
+        g1 = gs.guard(f, ne_edge(lambda x: x[0] == "arg" and x[1] == ps_arg), head)
+        g2 = gs.guard(f, lambda c, r, l: l == "false" and c[0] == "call" and re.search(r"HashSet::contains$", strip_generics(c[1])) is not None and c[2][0][0] == "arg" and c[2][0][1] == orig_arg
+                           and render(c[2][1]) == pr and gs.next_call_bb(c[2][1]) == head, head)
+        g3 = gs.guard(f, ne_edge(lambda x: x[0] == "call" and re.search(r"Option::as_ref$", strip_generics(x[1])) is not None and x[2][0][0] == "field" and x[2][0][2] == "source"
+                                   and x[2][0][1][0] == "arg" and x[2][0][1][1] == msg_arg), head)
         for inst, g, desc in (("never the peer it came from", g1, "Some(peer) != propagation_source"), ("never a peer that already sent it", g2, "!originating_peers.contains(peer)"),
                               ("never the message source", g3, "Some(peer) != message.source.as_ref()")):
             ok = bool(g) and f.must_pass_edges(s.bb, g, start=head)
